@@ -116,16 +116,45 @@ def two_threads(a):
     ds = Dataset(root)
     got = {"train": [], "test": []}
     errs = []
+    stop = threading.Event()
     def reader(split):
         try:
-            for _ in range(a["rounds"]):
+            # at least `rounds` passes, and keep going while the dropper is at work (bounded)
+            while len(got[split]) < a["rounds"] or (a.get("drops") and not stop.is_set() and len(got[split]) < 2000):
                 got[split].append([sp.ident(e) for e in ds.as_numpy_iterator_rust(split=split, repeat=False, shuffle=0, file_parallelism=a["T"])])
         except BaseException as e:  # noqa: BLE001
             errs.append(f"{split}: {type(e).__name__}: {str(e)[:120]}")
+    big = None
+    if a.get("drops"):
+        # shards that take a while to load (1 MiB of incompressible floats each, GZIP): closing an iterator then has to wait for its workers
+        from sedpack.io import Attribute
+        rb = Path(str(root) + "_big"); shutil.rmtree(rb, ignore_errors=True)
+        big = sp.mk(rb, fmt="fb", comp="GZIP", eps=1, attrs=[Attribute(name="a", dtype="int32", shape=(2,)), Attribute(name="w", dtype="float32", shape=(262144,))])
+        rs = sp.np.random.RandomState(5)
+        with big.filler() as f:
+            for v in range(8):
+                f.write_example(values={"a": sp.np.array([v, v], dtype=sp.np.int32), "w": rs.rand(262144).astype(sp.np.float32)}, split="train")
+        big = Dataset(rb)
+    def dropper(split):
+        # takes one example and closes the iterator while its workers are still loading shards, over and over
+        try:
+            for _ in range(a.get("drops", 0)):
+                it = big.as_numpy_iterator_rust(split="train", repeat=False, shuffle=0, file_parallelism=3)
+                first = sp.ident(next(it))
+                it.close()
+                if first != 0:
+                    errs.append(f"big: first example {first}")
+            stop.set()
+        except BaseException as e:  # noqa: BLE001
+            errs.append(f"dropper {split}: {type(e).__name__}: {str(e)[:120]}")
+        finally:
+            stop.set()
     ths = [threading.Thread(target=reader, args=(s,)) for s in ("train", "test")]
+    if a.get("drops"):
+        ths.append(threading.Thread(target=dropper, args=("train",)))
     for t in ths: t.start()
     for t in ths: t.join()
-    shutil.rmtree(root, ignore_errors=True)
+    shutil.rmtree(root, ignore_errors=True); shutil.rmtree(str(root) + "_big", ignore_errors=True)
     return {"want": want, "got": got, "errors": errs}
 
 
@@ -224,12 +253,12 @@ def run(ctx):
     ctx.cov["channel_traces_replayed"] = len(traces) - len([b for b in trace_bad if "case" in b])
     ctx.cov["channel_events_replayed"] = trace_events
     # ---- two Python threads reading through the extension at the same time (each its own split and iterator)
-    ta = {"root": str(ctx.scratch / "c15_two_threads"), "comp": ["", "LZ4"][ctx.seed % 2], "eps": 2, "n": 240, "rounds": 3, "T": 2}
+    ta = {"root": str(ctx.scratch / "c15_two_threads"), "comp": ["", "LZ4"][ctx.seed % 2], "eps": 2, "n": 240, "rounds": 8, "T": 2, "drops": 40}
     try:
         tt = child.call("harness.checks.c15", "two_threads", ta, timeout=180)
         for split in ("train", "test"):
             bad = [g for g in tt["got"][split] if g != tt["want"][split]]
-            if tt["errors"] or bad or len(tt["got"][split]) != ta["rounds"]:
+            if tt["errors"] or bad or len(tt["got"][split]) < ta["rounds"]:
                 ctx.report({"kind": "two-threads", "level": "extension", "what": "values-or-error"},
                            f"two Python threads reading {split!r} / the other split through the Rust reader at once: {tt['errors'][:2]} "
                            f"{len(tt['got'][split])} of {ta['rounds']} passes completed, {len(bad)} differ from the Python reader's list", {"case": ta, "errors": tt["errors"]})
@@ -237,8 +266,8 @@ def run(ctx):
     except child.ChildTimeout:
         # (a normal run takes a few seconds; the interpreter of the child is frozen, so only the parent can tell)
         ctx.report({"kind": "two-threads", "level": "extension", "what": "hang"},
-                   "two Python threads, each reading its own split through its own Rust-backed iterator, did not finish within 180 s (normally ~3 s): deadlock", {"case": ta})
-    ctx.cov["two_thread_passes"] = 2 * ta["rounds"]
+                   "Python threads using the Rust reader at the same time (two reading full passes of their own split, one taking an example and closing its iterator early, repeatedly) did not finish within 180 s (normally ~3 s): deadlock", {"case": ta})
+    ctx.cov["two_thread_passes"] = 2 * ta["rounds"]      # (lower bound; the readers keep going while the third thread drops iterators)
     # ---- the extension vs the Python reader
     cases = []
     for i in range(ctx.pick(3, 8)):
